@@ -176,12 +176,18 @@ def check_isolation(case: typing.Any, ctx: Ctx) -> Info:
 
         lookup_only_roots = [i for i in range(len(roots)) if all(defs[t]["root"] != i for t in targets) and not (mode == "namespace" and i == ri)]
         pre_added: typing.List[str] = []
-        if case.get("pre_extra") is not None and lookup_only_roots:
+        ported = [i for i in targets if defs[i].get("port") is not None]
+        port_twin = case.get("pre_extra") is not None and bool(ported) and case["pre_extra"]["set"] % 2 == 1
+        # where unreferenced files may be planted: roots that hold no target; for read_files (where the other definitions of the
+        # targets' own roots are outside the closure as well) a port twin may also sit right next to the targets
+        plant_roots = list(lookup_only_roots)
+        if port_twin and mode == "files" and case["pre_extra"]["root"] % 2:
+            plant_roots = sorted({defs[t]["root"] for t in targets})
+        if case.get("pre_extra") is not None and plant_roots:
             # unreferenced files that exist already before the first read (e.g. a legacy .uavcan copy next to its .dsdl twin)
-            lr0 = lookup_only_roots[case["pre_extra"]["root"] % len(lookup_only_roots)]
+            lr0 = plant_roots[case["pre_extra"]["root"] % len(plant_roots)]
             pre_set = PRE_EXTRA_SETS[case["pre_extra"]["set"] % len(PRE_EXTRA_SETS)]
-            ported = [i for i in targets if defs[i].get("port") is not None]
-            if ported and case["pre_extra"]["set"] % 2:
+            if port_twin:
                 # an unreferenced definition elsewhere that uses the very port-ID of one of the targets (same kind, other name)
                 pt = defs[ported[case["pre_extra"]["set"] % len(ported)]]
                 pre_set = [("%d.PortTwin.1.0.dsdl" % pt["port"], "@sealed\n---\n@sealed\n" if pt["service"] else "@sealed\n")]
